@@ -1,5 +1,6 @@
 """Seeded one-instance-broken variants (see bin/selftest). `expect` is a regex on the rule id; None = must stay silent."""
 EL = 'src/prayer_times/ext_lat.rs'
+HR = 'src/prayer_times/hours.rs'
 VARIANTS = [
     # ---------------------------------------------------------------- C08
     dict(id='c08-near-lat-drop-is-err', property='C08', expect=r'R8\.[23]', edits=[(EL,
@@ -54,4 +55,119 @@ VARIANTS = [
     }
     found
 }''')]),
+    # ---------------------------------------------------------------- C11
+    dict(id='c11-cap-31', property='C11', expect=r'R11\.1', edits=[(HR, 'const DEF_ROUND_SEC: f64 = 30.;', 'const DEF_ROUND_SEC: f64 = 31.;')]),
+    dict(id='c11-gt', property='C11', expect=r'R11\.2', edits=[(HR, '    if *sec >= sec_cap {', '    if *sec > sec_cap {')]),
+    dict(id='c11-modes-swapped', property='C11', expect=r'R11\.1', edits=[(HR,
+         'if params.round_seconds == SpecialRounding {', 'if params.round_seconds == AggressiveRounding {')]),
+    dict(id='c11-shurooq-rounded', property='C11', expect=r'R11\.1', edits=[(HR,
+         'Fajr | Dhuhr | Asr | Maghrib | Isha => {', 'Fajr | Shurooq | Dhuhr | Asr | Maghrib | Isha => {')]),
+    dict(id='c11-min-not-recomputed', property='C11', expect=r'R11\.[23]', edits=[(HR,
+         """    *min = (*hour - hour.floor()) * MIN_SEC_PER_HR_MIN;
+    *sec = 0.;""", """    if *sec >= sec_cap {
+        *min += 1.;
+    }
+    *sec = 0.;""")]),
+    dict(id='c11-no-wrap24', property='C11', expect=r'R11\.4', edits=[(HR,
+         """    if hour >= HRS_PER_DAY {
+        hour = hour.rem(HRS_PER_DAY);
+    }""", """    if hour > HRS_PER_DAY {
+        hour = hour.rem(HRS_PER_DAY);
+    }""")]),
+    dict(id='c11-offset-key', property='C11', expect=r'R11\.5', edits=[(HR,
+         'let mut hour = hour + params.minutes[&prayer] / MIN_SEC_PER_HR_MIN;', 'let mut hour = hour + params.minutes[&Fajr] / MIN_SEC_PER_HR_MIN;')]),
+    dict(id='c11-refactor-silent', property='C11', expect=None, edits=[(HR,
+         """    if hour < 0. {
+        while hour < 0. {
+            hour += HRS_PER_DAY;
+        }
+    }""", """    while hour < 0. {
+        hour += HRS_PER_DAY;
+    }""")]),
+    # ---------------------------------------------------------------- C07
+    dict(id='c07-reintroduce-unwrap', property='C07', expect=r'R7\.1', edits=[(EL,
+         'let extreme = hours[&Isha].borrow().map_or(false, |x| x.extreme);', 'let extreme = hours[&Isha].borrow().unwrap().extreme;')]),
+    dict(id='c07-wrap-loop-wrong-way', property='C07', expect=r'R7\.4', edits=[(HR,
+         """        while hour < 0. {
+            hour += HRS_PER_DAY;""", """        while hour < 0. {
+            hour -= HRS_PER_DAY;""")]),
+    dict(id='c07-no-24-guard', property='C07', expect=r'R7\.5', edits=[(HR,
+         """    if hour >= HRS_PER_DAY {
+        hour = hour.rem(HRS_PER_DAY);
+    }""", """    if hour > HRS_PER_DAY {
+        hour = hour.rem(HRS_PER_DAY);
+    }""")]),
+    dict(id='c07-ref-across-borrow-mut', property='C07', expect=r'R7\.[13]', edits=[(EL,
+         """    if hours[&Fajr].borrow().is_err() {
+        *hours[&Fajr].borrow_mut() = hours[&Shurooq].borrow().map(|mut x| {
+            x.value -= params.intervals[&Fajr] / MIN_SEC_PER_HR_MIN;""",
+         """    let keep = hours[&Fajr].borrow();
+    if keep.is_err() {
+        *hours[&Fajr].borrow_mut() = hours[&Shurooq].borrow().map(|mut x| {
+            x.value -= params.intervals[&Fajr] / MIN_SEC_PER_HR_MIN;""")]),
+    dict(id='c07-missing-param-key', property='C07', expect=r'R7\.2', edits=[('src/prayer_times/params.rs',
+         """            Mwl => {
+                angles.insert(Fajr, 18.);
+                angles.insert(Isha, 17.);""", """            Mwl => {
+                angles.insert(Fajr, 18.);""")]),
+    dict(id='c07-unwrap-dhuhr-sev', property='C07', expect=r'R7\.1', edits=[(EL,
+         """        let shur_hour = hours[&Shurooq].borrow().as_ref().unwrap().value;
+        let magh_hour = hours[&Maghrib].borrow().as_ref().unwrap().value;
+        let portion = match""", """        let shur_hour = hours[&Shurooq].borrow().as_ref().unwrap().value;
+        let magh_hour = hours[&Maghrib].borrow().as_ref().unwrap().value;
+        let _asr_hour = hours[&Asr].borrow().as_ref().unwrap().value;
+        let portion = match""")]),
+    # ---------------------------------------------------------------- C01 / C13
+    dict(id='c01-restore-prev-zero', property='C01', expect=r'R1\.2', edits=[(HR, '        prev_ra -= TWO_PI_DEG;', '        prev_ra = 0.;')]),
+    dict(id='c13-restore-prev-zero', property='C13', expect=r'R1\.2', edits=[(HR, '        prev_ra -= TWO_PI_DEG;', '        prev_ra = 0.;')]),
+    dict(id='c01-delete-next-adjust', property='C01', expect=r'R1\.2', edits=[(HR, '        next_ra += TWO_PI_DEG;', '        next_ra += 0.;')]),
+    dict(id='c01-modulus-180', property='C01', expect=r'R1\.2', edits=[(HR, '        next_ra += TWO_PI_DEG;', '        next_ra += 180.;')]),
+    dict(id='c01-threshold-359', property='C01', expect=r'R1\.2', edits=[(HR, '    let j = 350.;', '    let j = 359.5;')]),
+    dict(id='c01-drop-hour-angle-normaliser', property='C13', expect=r'R1\.2', edits=[(HR,
+         '(sid_time_gw + f64::from(top_astro_day.coords().longitude) - ra_interp).cap_angle_between_180()',
+         '(sid_time_gw + f64::from(top_astro_day.coords().longitude) - ra_interp)')]),
+    dict(id='c01-dhuhr-conditional', property='C01', expect=r'R1\.1', edits=[(HR,
+         '    hours.insert(Dhuhr, Ok(dhuhr_hour));', '    hours.insert(Dhuhr, if dhuhr_hour.is_finite() { Ok(dhuhr_hour) } else { Err(()) });')]),
+    dict(id='c01-dhuhr-uses-minutes', property='C01', expect=r'R1\.3', edits=[(HR,
+         '    hours.insert(Dhuhr, Ok(dhuhr_hour));', '    hours.insert(Dhuhr, Ok(dhuhr_hour + params.minutes[&Dhuhr] * 0.));')]),
+    dict(id='c01-refactor-silent', property='C01', expect=None, edits=[(HR,
+         """    let delta1 = next_ra - prev_ra;
+    let delta2 = next_ra + prev_ra - 2. * top_astro_day.astro().ra();
+    (delta1, delta2)""", """    let cur = top_astro_day.astro().ra();
+    (next_ra - prev_ra, (next_ra - cur) - (cur - prev_ra))""")]),
+    # ---------------------------------------------------------------- C06
+    dict(id='c06-guard-other-variable', property='C06', expect=r'R6\.[12]', edits=[(HR,
+         '    let isha_hour = if within_abs_1(isha_hour) {', '    let isha_hour = if within_abs_1(fajr_hour.unwrap_or(2.)) {')]),
+    dict(id='c06-open-interval', property='C06', expect=r'R6\.1', edits=[(HR, '    (-1. ..=1.).contains(&val)', '    (-1. ..1.).contains(&val)')]),
+    dict(id='c06-narrow', property='C06', expect=r'R6\.1', edits=[(HR, '    (-1. ..=1.).contains(&val)', '    (-0.99 ..=0.99).contains(&val)')]),
+    dict(id='c06-asr-unguarded', property='C06', expect=r'R6\.[12]', edits=[(HR,
+         """    if within_abs_1(asr_hour) {
+        Ok(dhuhr_hour + DEGREES_TO_10_BASE * asr_hour.acos().to_degrees())
+    } else {
+        Err(())
+    }""", """    Ok(dhuhr_hour + DEGREES_TO_10_BASE * asr_hour.acos().to_degrees())""")]),
+    dict(id='c06-none-drops-asr', property='C06', expect=r'R6\.4', edits=[(EL,
+         """    adj_for_int(params, &hours);
+
+    HashMap::from_iter""", """    adj_for_int(params, &hours);
+    if params.extreme_latitude_method == ExtremeLatitudeMethod::None && hours[&Prayer::Shurooq].borrow().is_err() {
+        *hours[&Prayer::Asr].borrow_mut() = Err(());
+    }
+
+    HashMap::from_iter""")]),
+    dict(id='c06-refactor-silent', property='C06', expect=None, edits=[(HR,
+         """fn within_abs_1(val: f64) -> bool {
+    (-1. ..=1.).contains(&val)
+}""", """fn within_abs_1(val: f64) -> bool {
+    val >= -1. && val <= 1.
+}""")]),
+    # ---------------------------------------------------------------- C05
+    dict(id='c05-drop-asr-insert', property='C05', expect=r'R5\.1', edits=[(HR, '    hours.insert(Asr, asr_hour_res);\n', '')]),
+    dict(id='c05-fajr-after-noon', property='C05', expect=r'R5\.2', edits=[(HR,
+         'Ok(dhuhr_hour - DEGREES_TO_10_BASE * fajr_hour.acos().to_degrees())', 'Ok(dhuhr_hour + DEGREES_TO_10_BASE * fajr_hour.acos().to_degrees())')]),
+    dict(id='c05-flag-in-adj-for-int', property='C05', expect=r'R5\.3', edits=[(EL,
+         """                x.value -= params.intervals[&Fajr] / MIN_SEC_PER_HR_MIN;
+                x.extreme = extreme;""", """                x.value -= params.intervals[&Fajr] / MIN_SEC_PER_HR_MIN;
+                x.extreme = true;""")]),
+    dict(id='c05-no-imsaak', property='C05', expect=r'R5\.1', edits=[('src/prayer_times/mod.rs', '    times.insert(Imsaak, imsaak);', '    let _ = imsaak;')]),
 ]
